@@ -380,8 +380,12 @@ def r3(prog, run):
                 if bo and bo[0] == '==' and any(f.nodes[f.skip(x)].get('f') in {r[0] for r in retry_fields} for x in bo[1:]):
                     return (False,)
             return None
-        ev = cfgx.Evaluator(sd, {}, custom=custom)
-        exits, _ = cfgx.explore(sd, (), transfer, lambda f, c, st: ev.ev(c, st))
+        exits = {}
+        for case in cfgx.flag_cases(sd, lambda vv: cfgx.Evaluator(sd, {}, var_values=vv, custom=custom)):
+            ev = cfgx.Evaluator(sd, {}, var_values=case, custom=custom)
+            ex, _ = cfgx.explore(sd, (), transfer, lambda f, c, st, ev=ev: ev.ev(c, st))
+            for k_, v_ in ex.items():
+                exits.setdefault(k_, v_)
         run.paths += len(exits)
         for st, path in exits.items():
             run.instance(rid)
@@ -561,13 +565,20 @@ def r8(prog, run):
                              'misdirects the next one', floor=1)
     h = prog.fn(OC + '::_q_socketDisconnected')
     inputs = set()
+
+    def members_in(x, depth=0):
+        for j in h.walk(x):
+            m = h.nodes[j]
+            if m['k'] == 'mem' and (m.get('f') or '').startswith(OCP + '::'):
+                inputs.add(m['f'])
+            if m['k'] == 'var' and m.get('vk') == 'local' and depth < 3:        # a condition held in a named flag
+                d_ = h.single_def(m.get('decl'))
+                if d_ is not None:
+                    members_in(d_, depth + 1)
     for b in h.blocks.values():
         t = b.get('term')
         if t and 'cond' in t:
-            for j in h.walk(t['cond']):
-                m = h.nodes[j]
-                if m['k'] == 'mem' and (m.get('f') or '').startswith(OCP + '::'):
-                    inputs.add(m['f'])
+            members_in(t['cond'])
     inputs -= {OCP + '::q'}
     if not inputs:
         raise AnalysisBroken('C10.R8: the socket-disconnected handler no longer branches on members of the private')
